@@ -38,7 +38,16 @@ fn main() {
       let crash_path = report::verif_root().join("replays").join(format!("{}-crash-{}.json", id, std::process::id()));
       let _ = std::fs::create_dir_all(crash_path.parent().unwrap());
       crashguard::arm(id, &crash_path);
-      let code = dispatch(id, tier);
+      // a panic of the subject that no oracle caught unwinds to here (through the worker scope): it belongs to
+      // the case its worker had published
+      let code = match std::panic::catch_unwind(|| dispatch(id, tier)) {
+        Ok(c) => c,
+        Err(_) => {
+          crashguard::uncaught_panic();
+          eprintln!("machinery: the check panicked outside any published case");
+          101
+        }
+      };
       subject::cleanup_scratch();
       code
     }
